@@ -83,6 +83,8 @@ CALLBACKS = {
         _named(lambda a, b: type(a) is type(b) and a == b, "strict_eq"),
         _named(lambda a, b: False, "never"),
         _named(lambda a, b: True, "always"),
+        # not an equivalence (not transitive): a tolerance comparer
+        _named(lambda a, b: type(a) is int and type(b) is int and abs(a - b) <= 1, "near"),
     ],
     "accumulator": [
         _named(lambda acc, x: (acc, x), "pair"),
@@ -139,6 +141,9 @@ def truncate(steps):
         for ev in st:
             if done:
                 break
+            if ev[0] == "E" and isinstance(ev[1], Exception) and not isinstance(ev[1], Boom):
+                # library exceptions compare by type and arguments, not identity
+                ev = ("E", (type(ev[1]).__name__, ev[1].args))
             cur.append(ev)
             if ev[0] in ("E", "C"):
                 done = True
@@ -150,6 +155,7 @@ def run_spec(cls, params, timeline):
     s = cls.__new__(cls)
     for k, v in params.items():
         setattr(s, k, v)
+    s.source = None
     rec = Recorder()
     if hasattr(s, "init"):
         s.init()
@@ -210,6 +216,14 @@ def timelines(max_len, values):
             yield body + [("E", Boom("src"))]
 
 
+def elem_values(c, default):
+    if getattr(c, "elem", "val") == "notification":
+        from reactivex.notification import OnCompleted, OnError, OnNext
+
+        return [OnNext(None), OnNext(1), OnError(Boom("n")), OnCompleted()]
+    return default
+
+
 def flat(steps):
     return [ev for st in steps for ev in st]
 
@@ -255,7 +269,7 @@ def requires_ok(c, params):
 def validate_spec(c, max_len=4, values=None):
     """twin vs literal list expression, prefix-wise (covers timing)"""
     cls = spec_class(c)
-    values = values or VALUES[:5]
+    values = elem_values(c, values or VALUES[:5])
     cases = mism = 0
     first = None
     for params in param_grid(c):
@@ -277,7 +291,10 @@ def validate_spec(c, max_len=4, values=None):
             if term == "completed":
                 exp.append(("C",))
             elif isinstance(term, tuple):
-                exp.append(("E", term[1]))
+                e = term[1]
+                if isinstance(e, Exception) and not isinstance(e, Boom):
+                    e = (type(e).__name__, e.args)
+                exp.append(("E", e))
             if got != exp:
                 mism += 1
                 if first is None:
@@ -288,7 +305,7 @@ def validate_spec(c, max_len=4, values=None):
 def diff_real(c, max_len=3, values=None, pin=None, budget_s=60.0, stop_first=True):
     """real operator vs twin, step-wise"""
     cls = spec_class(c)
-    values = values or VALUES
+    values = elem_values(c, values or VALUES)
     t0 = time.time()
     cases = 0
     found = []
@@ -367,7 +384,11 @@ def encode_timeline(tl):
     out = []
     for ev in tl:
         if ev[0] == "N":
-            out.append(["N", repr(ev[1])])
+            v = ev[1]
+            if type(v).__name__ in ("OnNext", "OnError", "OnCompleted"):
+                out.append(["NOTIF", type(v).__name__, repr(getattr(v, "value", None)) if type(v).__name__ == "OnNext" else "None"])
+            else:
+                out.append(["N", repr(v)])
         elif ev[0] == "E":
             out.append(["E", ev[1].tag])
         else:
@@ -378,7 +399,16 @@ def encode_timeline(tl):
 def decode_timeline(enc):
     out = []
     for ev in enc:
-        if ev[0] == "N":
+        if ev[0] == "NOTIF":
+            from reactivex import notification as _n
+
+            if ev[1] == "OnNext":
+                out.append(("N", _n.OnNext(eval(ev[2], {}))))
+            elif ev[1] == "OnError":
+                out.append(("N", _n.OnError(Boom("n"))))
+            else:
+                out.append(("N", _n.OnCompleted()))
+        elif ev[0] == "N":
             out.append(("N", eval(ev[1], {})))
         elif ev[0] == "E":
             out.append(("E", Boom(ev[1])))
